@@ -8,12 +8,12 @@ Model of `scylla/src/routing/locator/tablets.rs` (C15).
 * `fromRawReplicas`     ← `TabletReplicas::from_raw_replicas` (135-169): `all`, the `per_dc` grouping as the code
                           builds it (push to the datacenter's vector or insert a new one), the `failed` list.
 * `Tablet.fromRaw`      ← `Tablet::from_raw_tablet` (252-275).
-* `reResolve`           ← `Tablet::re_resolve_replicas` (284-301), `updateStale` ← `update_stale_nodes` (303-324).
-* `tabletForToken`, `replicasForToken`, `dcReplicasForToken` ← 369-395.
-* `addTablet`           ← `TableTablets::add_tablet` (402-421); `none` = the panic of `Vec::drain(left..right)` when
+* `reResolve`           ← `Tablet::re_resolve_replicas` (284-301), `updateStale` ← `update_stale_nodes` (303-334).
+* `tabletForToken`, `replicasForToken`, `dcReplicasForToken` ← 379-405.
+* `addTablet`           ← `TableTablets::add_tablet` (412-431); `none` = the panic of `Vec::drain(left..right)` when
                           `left > right` (only reachable with an ill-formed tablet `first > last`).
-* `Table.maintenance`   ← `TableTablets::perform_maintenance` (423-469).
-* `Info.addTablet`, `Info.maintenance` ← `TabletsInfo::{add_tablet, perform_maintenance}` (523-538, 598-662).
+* `Table.maintenance`   ← `TableTablets::perform_maintenance` (433-479).
+* `Info.addTablet`, `Info.maintenance` ← `TabletsInfo::{add_tablet, perform_maintenance}` (533-548, 608-672; views 628, 641).
 * `rawTabletCheck`      ← the validation part of `RawTablet::from_custom_payload` (86-119) after deserialisation;
   `parsePayload`        ← the deserialisation of the `tuple<bigint, bigint, list<tuple<uuid, int>>>` cell (66-108).
 
@@ -250,7 +250,7 @@ structure KsMeta where
   deriving DecidableEq, Repr
 
 /-- what the two places that look at tables and views see: `tables.contains_key(t) || views.contains_key(t)`
-(609-613) is membership in `tables ++ views`, `tables.keys().chain(views.keys())` (623) is their concatenation -/
+(627-628) is membership in `tables ++ views`, `tables.keys().chain(views.keys())` (639-641) is their concatenation -/
 def KsMeta.entry (k : KsMeta) : String × Bool × List String := (k.name, k.tabletBased, k.tables ++ k.views)
 
 /-- `TabletsInfo::perform_maintenance` on keyspaces with tables and views kept apart -/
